@@ -89,7 +89,7 @@ Proof. vm_compute. reflexivity. Qed.
         for _ in range(20 if c.tier == "quick" else 200):
             cases.append({"cls": cls, "threads": 3, "schedule": [c.rng.randrange(3) for _ in range(40)]})
     # non-integral prefix exponents, products of SI and IEC prefixes, and chained expressions with a new intermediate
-    for cls in ("PrefixFloat", "PrefixMixed", "PrefixDecimal", "PrefixDecimalUnit", "DimChain", "UnitChain"):
+    for cls in ("PrefixFloat", "PrefixMixed", "PrefixDecimal", "PrefixDecimalUnit", "DimChain", "UnitChain", "UnpicklePrefix", "UnpickleDimension"):
         for sc in (scheds[:60] if c.tier == "quick" else scheds[::2]):
             cases.append({"cls": cls, "threads": 2, "schedule": sc})
         for sc in fine[:(60 if c.tier == "quick" else 400)]:
